@@ -1523,21 +1523,22 @@ impl Monitors {
         };
         for ts in &snap.tasks {
             match &ts.state {
-                TaskStateSnap::Assigned { worker_id, .. } if worker_ok(worker_id) => {
-                    obs.alarm(
-                        "C02",
-                        step,
-                        "task stays assigned to a connected worker that neither started nor rejected it, with no message in flight",
-                        format!("{} on w{worker_id}", ts.id),
-                    );
-                }
-                TaskStateSnap::Retracting { worker_id } if worker_ok(worker_id) => {
-                    obs.alarm(
-                        "C02",
-                        step,
-                        "task stays in retraction from a connected worker with no message in flight",
-                        format!("{} from w{worker_id}", ts.id),
-                    );
+                // (only a task that the worker does not know at all is judged: a worker-side
+                //  queue of accepted tasks would be a legitimate design)
+                TaskStateSnap::Assigned { worker_id, .. } | TaskStateSnap::Retracting { worker_id }
+                    if worker_ok(worker_id) =>
+                {
+                    let wsnap = world.workers[worker_id].sim.snapshot();
+                    let known = wsnap.running.iter().any(|r| r.task_id == ts.id)
+                        || wsnap.prefilled.iter().any(|(_, b)| b.contains(&ts.id));
+                    if !known {
+                        obs.alarm(
+                            "C02",
+                            step,
+                            "task stays assigned to a connected worker that neither started nor rejected it, with no message in flight",
+                            format!("{} ({:?}) is unknown to w{worker_id}", ts.id, ts.state),
+                        );
+                    }
                 }
                 TaskStateSnap::Prefilled { worker_id } if worker_ok(worker_id) => {
                     let held = world.workers[worker_id]
@@ -1564,15 +1565,23 @@ impl Monitors {
             }
             for (_, backlog) in &ws.sim.snapshot().prefilled {
                 for t in backlog {
+                    // the server must still count the task as held by this worker (in whatever
+                    // state); otherwise it can run a second time somewhere else
                     let ok = snap.tasks.iter().any(|x| {
                         x.id == *t
-                            && matches!(&x.state, TaskStateSnap::Prefilled { worker_id } if worker_id == w)
+                            && match &x.state {
+                                TaskStateSnap::Prefilled { worker_id }
+                                | TaskStateSnap::Retracting { worker_id }
+                                | TaskStateSnap::Assigned { worker_id, .. }
+                                | TaskStateSnap::Running { worker_id, .. } => worker_id == w,
+                                _ => false,
+                            }
                     });
                     if !ok {
                         obs.alarm(
                             "C06",
                             step,
-                            "worker keeps a task in its backlog that the server does not consider prefilled there, with no message in flight",
+                            "worker keeps a task in its backlog that the server no longer counts as held by it, with no message in flight",
                             format!(
                                 "{t} in the backlog of w{w}; server state {:?}",
                                 snap.tasks.iter().find(|x| x.id == *t).map(|x| &x.state)
